@@ -1267,11 +1267,11 @@ class Obj(Opcode):
         else:
             raise ValueError("Exhausted the stack while searching for a MarkObject!")
         kls = args.pop(0)
+        # Instantiating the class can have side effects, so, as for REDUCE, save the result to a
+        # variable; otherwise the call is lost when the value is popped or never used.
         # TODO Verify paths for correctness
-        if args or hasattr(kls, "__getinitargs__") or not isinstance(kls, type):
-            interpreter.stack.append(ast.Call(kls, args, []))
-        else:
-            interpreter.stack.append(ast.Call(kls, kls, []))
+        var_name = interpreter.new_variable(ast.Call(kls, args, []))
+        interpreter.stack.append(ast.Name(var_name, ast.Load()))
 
 
 class ShortBinUnicode(DynamicLength, ConstantOpcode):
@@ -1339,9 +1339,12 @@ class NewObj(Opcode):
         args = interpreter.stack.pop()
         class_type = interpreter.stack.pop()
         if isinstance(args, ast.Tuple):
-            interpreter.stack.append(ast.Call(class_type, list(args.elts), []))
+            call = ast.Call(class_type, list(args.elts), [])
         else:
-            interpreter.stack.append(ast.Call(class_type, [ast.Starred(args)], []))
+            call = ast.Call(class_type, [ast.Starred(args)], [])
+        # as for REDUCE: keep the call even if its value is discarded
+        var_name = interpreter.new_variable(call)
+        interpreter.stack.append(ast.Name(var_name, ast.Load()))
 
 
 class NewObjEx(Opcode):
@@ -1351,10 +1354,14 @@ class NewObjEx(Opcode):
         kwargs = interpreter.stack.pop()
         args = interpreter.stack.pop()
         class_type = interpreter.stack.pop()
+        keywords = [ast.keyword(arg=None, value=kwargs)]  # i.e. **kwargs
         if isinstance(args, ast.Tuple):
-            interpreter.stack.append(ast.Call(class_type, list(args.elts), kwargs))
+            call = ast.Call(class_type, list(args.elts), keywords)
         else:
-            interpreter.stack.append(ast.Call(class_type, [ast.Starred(args)], kwargs))
+            call = ast.Call(class_type, [ast.Starred(args)], keywords)
+        # as for REDUCE: keep the call even if its value is discarded
+        var_name = interpreter.new_variable(call)
+        interpreter.stack.append(ast.Name(var_name, ast.Load()))
 
 
 class BinPersId(Opcode):
@@ -1362,13 +1369,14 @@ class BinPersId(Opcode):
 
     def run(self, interpreter: Interpreter):
         pid = interpreter.stack.pop()
-        interpreter.stack.append(
-            ast.Call(
-                ast.Attribute(ast.Name("UNPICKLER", ast.Load()), "persistent_load"),
-                [pid],
-                [],
-            )
+        call = ast.Call(
+            ast.Attribute(ast.Name("UNPICKLER", ast.Load()), "persistent_load"),
+            [pid],
+            [],
         )
+        # as for REDUCE: keep the call even if its value is discarded
+        var_name = interpreter.new_variable(call)
+        interpreter.stack.append(ast.Name(var_name, ast.Load()))
 
 
 class PersId(Opcode):
